@@ -408,7 +408,7 @@ def residual_requires(ob, k):
 
 
 def record_and_replay(prop, ob, db, sc, do_replay=True):
-    d = os.path.join(P.ROOT, 'replays', prop)
+    d = os.path.join(os.environ.get('VERIF_REPLAYS') or os.path.join(P.ROOT, 'replays'), prop)
     os.makedirs(d, exist_ok=True)
     tag = hashlib.sha256(ob.cname.encode()).hexdigest()[:8]
     path = os.path.join(d, '%s_%s__%s.json' % (re.sub(r'\W', '_', ob.fn['name'])[:30], tag, ob.cfgs[0]))
